@@ -69,6 +69,10 @@ EXPLANATION += (
     " Round 6: the markers of a desperate pair are read at the pair's table index (R-COVER/desperate-pairs/pair-index)."
 )
 
+EXPLANATION += (
+    " Round 8: filled slots are reported to the utility update by the pair's table index."
+)
+
 RULE_TEXT = (
     "one obligation per loop exit, per filled-slot condition, per "
     "bookkeeping store and per provenance relation")
